@@ -728,6 +728,68 @@ def run_dynamic(tier='quick', seed=0):
             distinct.add(repr(inp_bm))
             if log_bm.count("enter") != 1 or ndoers_bm != 2:
                 v('C06/extend-present-doer-reentered', inp_bm, dict(enters=log_bm.count("enter"), doers=ndoers_bm, recurs=log_bm.count("recur")), dict(enters=1, doers=2))
+    # the mirror case (seed C06d): REMOVE with an equal-but-not-identical bound-method doer, from outside or from inside a
+    # cycle: the doer is force-closed (exit logged) before remove() returns, never recurs again, and leaves the doers list
+    for host_rm in ("doist", "dodoer"):
+        for frm_rm in ("outside", "inside"):
+            log_rm = []
+            seen_rm = {}
+
+            class WR:
+                @_doing.doize(tock=0.0)
+                def workDo(self, tymth=None, tock=0.0, **opts):
+                    log_rm.append("enter")
+                    try:
+                        while True:
+                            yield
+                            log_rm.append("recur")
+                    finally:
+                        log_rm.append("exit")
+            wr = WR()
+            holder_rm = {}
+
+            def _rm():
+                holder_rm["s"].remove([wr.workDo])
+                seen_rm["at_return"] = list(log_rm)
+                seen_rm["doers"] = len(holder_rm["s"].doers)
+
+            @_doing.doize(tock=0.0)
+            def ctlRmDo(tymth=None, tock=0.0, **opts):
+                yield
+                if frm_rm == "inside":
+                    _rm()
+                yield
+                yield
+                return True
+            if host_rm == "doist":
+                s_rm = _doing.Doist(tock=1.0, real=False, limit=5.0, doers=[wr.workDo, ctlRmDo])
+                holder_rm["s"] = s_rm
+                s_rm.enter()
+                s_rm.recur()
+                if frm_rm == "outside":
+                    _rm()
+                for _ in range(3):
+                    s_rm.recur()
+                s_rm.exit()
+            else:
+                dd_rm = _doing.DoDoer(doers=[wr.workDo, ctlRmDo], always=True)
+                holder_rm["s"] = dd_rm
+                outer_rm = _doing.Doist(tock=1.0, real=False, limit=5.0, doers=[dd_rm])
+                outer_rm.enter()
+                outer_rm.recur()
+                if frm_rm == "outside":
+                    _rm()
+                for _ in range(3):
+                    outer_rm.recur()
+                outer_rm.exit()
+            evals += 1
+            inp_rm = dict(scenario="remove with an equal-but-not-identical (bound-method) doer", host=host_rm, called_from=frm_rm)
+            distinct.add(repr(inp_rm))
+            at = seen_rm.get("at_return", [])
+            got_rm = dict(closed_at_return=at.count("exit"), doers_after=seen_rm.get("doers"), recurs_after=log_rm.count("recur") - at.count("recur"),
+                          exits=log_rm.count("exit"))
+            if got_rm != dict(closed_at_return=1, doers_after=1, recurs_after=0, exits=1):
+                v('C06/removed-doer-not-closed-or-still-running', inp_rm, got_rm, dict(closed_at_return=1, doers_after=1, recurs_after=0, exits=1))
     return dict(evaluations=evals, distinct_nontrivial=len(distinct), samples=samples, violations=viol,
                 rule="random flat Doist / DoDoer(always=True) hosts with 2..4 doers whose scripts call extend/remove (self, siblings, spare, "
                      "duplicates, extend-then-remove in one step) from inside recur; limit 8 cycles")
